@@ -170,6 +170,7 @@ func generate() {
 	genErrorPaths()
 	genBbs()
 	genRaces()
+	genHolders()
 	genHistories()
 	genMalformed()
 	run.Exhaust = false
@@ -331,8 +332,70 @@ func genBbs() {
 	}
 }
 
+var beginHolder = "inproc"
+
 func beginLine(id string, lvl string, user []byte, req string, ctype int, text []byte, ip []byte) string {
-	return "begin " + id + strings.TrimPrefix(commentLine("ptt", lvl, user, req, ctype, text, ip), "comment")
+	return "begin " + id + " " + beginHolder + strings.TrimPrefix(commentLine("ptt", lvl, user, req, ctype, text, ip), "comment")
+}
+
+func appendLine(name string, bs []byte) string {
+	return "append " + hx.Hex([]byte(name)) + " " + hx.Hex(bs)
+}
+
+// another process holds the article lock while a comment arrives, appends a line of its own (an edit being
+// merged, a comment written by mbbsd) and releases the lock within the commenter's retry window - or only
+// after it: the holder's line must survive, the comment comes behind it or is refused without a trace
+func genHolders() {
+	u := userArr("A1", nil)
+	ip := ipArr("6.6.6.6")
+	holderLine := []byte("\x1b[1;31m\xa1\xf7 \x1b[33mmbbsd\x1b[m\x1b[33m: written by the lock holder            \x1b[m 01/01 00:00\n")
+	var dir []byte
+	for k := 0; k < 6; k++ {
+		dir = append(dir, mkRec(artName('M', k), int8([]int{99, -99, 0, 100, 5, -5}[k]), 0, k)...)
+	}
+	defer func() { beginHolder = "inproc" }()
+	for round, old := range []bool{false, true} {
+		execLine(resetLine(attrOf(round), old, true, []byte("article body\n--\n"), dir))
+		// t0 is kept waiting beyond its retry window (expire); started first so that its five seconds overlap the rest
+		beginHolder = "foreign"
+		execLine(beginLine("t0", "user", u, artName('M', 0), 1, []byte("never gets the lock"), ip))
+		execLine(appendLine(artName('M', 0), holderLine))
+		// t1: the holder appends one line and releases
+		execLine(beginLine("t1", "user", u, artName('M', 1), 2, []byte("behind the holder's line"), ip))
+		execLine(appendLine(artName('M', 1), holderLine))
+		// t2: the holder appends a short line (shorter than the comment) and a second one
+		execLine(beginLine("t2", "user", u, artName('M', 2), 1, []byte("two short lines before me"), ip))
+		execLine(appendLine(artName('M', 2), []byte("x\n")))
+		execLine(appendLine(artName('M', 2), []byte("a much longer line than the comment itself: "+strings.Repeat("z", 150)+"\n")))
+		// t3: holder of this process's kind (lock table + flock), appends too
+		beginHolder = "inproc"
+		execLine(beginLine("t3", "user", u, artName('M', 3), 2, []byte("in-process holder"), ip))
+		execLine(appendLine(artName('M', 3), holderLine))
+		// t4: foreign holder, other comments land in between and the holder appends
+		beginHolder = "foreign"
+		execLine(beginLine("t4", "user", u, artName('M', 4), 1, []byte("after everybody"), ip))
+		execLine(commentLine("ptt", "sysop", userArr("SYSOP", nil), artName('M', 4), 1, []byte("in between"), ip))
+		execLine(appendLine(artName('M', 4), holderLine))
+		execLine(commentLine("ptt", "sysop", userArr("SYSOP", nil), artName('M', 4), 2, []byte("in between too"), ip))
+		// an append by nobody in particular on an article nobody waits for
+		execLine(appendLine(artName('M', 5), []byte("plain append\n")))
+		for _, id := range []string{"t1", "t2", "t3", "t4"} {
+			execLine("finish " + id)
+		}
+		if round == 0 || run.Thorough() {
+			execLine("expire t0")
+		} else {
+			execLine("finish t0")
+		}
+		execLine("dump")
+	}
+	// protocol edges of the new ops
+	execLine("append " + hx.Hex([]byte("M.1400000000.A.001")) + " 00")
+	execLine("append " + hx.Hex([]byte(artName('M', 0))) + " -")
+	execLine("append " + hx.Hex([]byte(artName('M', 0))) + " zz")
+	execLine("append 2e2e 00")
+	execLine("expire t9")
+	execLine("begin t9 alien" + strings.TrimPrefix(commentLine("ptt", "user", u, artName('M', 0), 1, []byte("x"), ip), "comment"))
 }
 
 // interleaved commenters: a commenter looks its entry up, is held on the article lock, others move the score to
